@@ -300,6 +300,16 @@ def replay(hosts: dict, beh: dict, check: set[str]) -> tuple[list, int]:
                 if isinstance(value, base.RawModel):
                     value = copy.deepcopy(value)
                 setattr(m, s['val'], value)
+            elif op == 'vsetedge':
+                base_v = dn.value(cname, s)
+                import decimal as _d
+                if isinstance(base_v, _d.Decimal):
+                    value = _d.Decimal(0)
+                elif isinstance(base_v, str) and any(t in (models.EscapedString, models.InlineComment, models.BlockComment) for t in s['types']):
+                    value = ''
+                else:
+                    break
+                setattr(m, s['val'], value)
             elif op == 'vclear':
                 setattr(m, s['val'], None)
             elif op.startswith('attached'):
@@ -368,12 +378,12 @@ def replay(hosts: dict, beh: dict, check: set[str]) -> tuple[list, int]:
                     add('frame', ev, f'token {t!r} outside the child disappeared')
             for t in now_toks:
                 if id(t) not in oldset and id(t) not in child_ids and not (isinstance(t, SEP_TYPES) or not t.raw_text):
-                    if op in ('vset',) :
+                    if op in ('vset', 'vsetedge'):
                         continue      # value-level writes create the child themselves
                     add('frame', ev, f'token {t!r} outside the child appeared')
-        if 'readback' in check and op in ('vset', 'vclear'):
+        if 'readback' in check and op in ('vset', 'vsetedge', 'vclear'):
             got = getattr(m, s['val'])
-            want = value if op == 'vset' else None
+            want = value if op in ('vset', 'vsetedge') else None
             gv = tree.text_of(got) if isinstance(got, base.RawModel) else got
             wv = tree.text_of(want) if isinstance(want, base.RawModel) else want
             if gv != wv:
@@ -387,7 +397,7 @@ def replay(hosts: dict, beh: dict, check: set[str]) -> tuple[list, int]:
                 f2 = tree.parse(text)
                 if 'reparse' in check and tree.content(f2) != tree.content(f):
                     add('reparse', ev, f'content differs after re-parse of {text!r}')
-                if 'readback' in check and op in ('vset', 'vclear'):
+                if 'readback' in check and op in ('vset', 'vsetedge', 'vclear'):
                     m2 = at_path(f2, path)
                     # which model a comment is attributed to may differ after re-parse (attribution aside)
                     strip = lambda d: {k: v for k, v in d.items() if k not in ('leading_comment', 'trailing_comment')}
